@@ -55,6 +55,9 @@ func newFootprintFromFont(f *font.Font, location Location, md font.Description) 
 	out.Langs = newLangsetFromCoverage(out.Runes)
 	out.Family = font.NormalizeFamily(md.Family)
 	out.Aspect = md.Aspect
+	// unspecified fields are replaced by the regular values, as [font.Font.Describe] does:
+	// the matching functions expect every font to carry an actual style, weight and stretch
+	out.Aspect.SetDefaults()
 	out.Location = location
 	out.isUserProvided = true
 	return out
